@@ -286,7 +286,10 @@ func genNest(t *rapid.T, d int) ref.Value {
 var structuralBytes = []byte{0x00, 0x01, 0x02, 0x03, 0x04, 0x06, 0x08, 0x0a, 0x0b, 0x0c, 0x0d, 0x0e, 0x0f, 0x10, 0x7f, 0x80, 0x8b, 0x8c, 0xff}
 var hostileSizes = []uint32{0, 1, 2, 0x7fffffff, 0x80000000, 0xffffffff, 0xff000000, 0x00010000, 0x7ffffff0,
 	// counts whose product with an element width of 1..16 reaches 2^31 or wraps at 2^32
-	0x08000000, 0x10000000, 0x20000000, 0x40000000, 0x10000001, 0x20000001, 0x40000001, 0x0fffffff, 0x15555556, 0x55555556, 0x33333334}
+	0x08000000, 0x10000000, 0x20000000, 0x40000000, 0x10000001, 0x20000001, 0x40000001, 0x0fffffff, 0x15555556, 0x55555556, 0x33333334,
+	// floor((2^31-1)/w) and the next value for element widths w = 2..16: products just below / at 2^31
+	0x3fffffff, 0x2aaaaaaa, 0x2aaaaaab, 0x1fffffff, 0x19999999, 0x1999999a, 0x15555555, 0x0fffffff, 0x0e38e38e, 0x0e38e38f, 0x0ccccccc, 0x0ccccccd, 0x0aaaaaaa, 0x0aaaaaab, 0x07ffffff,
+	0x3ffffffd, 0x3ffffffe, 0x2aaaaaa9, 0x1ffffffe}
 
 // mutate applies one malformation operator to enc (marks describe its structural bytes).
 // It returns the mutated bytes and the operator name.
